@@ -13,6 +13,7 @@ EVALS = ["concat (map (fun q => %s map h_id (filter (fun h => negb (hist_tie poo
 
 def run(run, args):
     n, maxlen = (100, 20) if run.tier == "quick" else (1200, 40)
+    n *= run.scale
     head, recs = complib.run_comp(run, "c06", n, maxlen)
     res, errors = complib.eval_hists(run, head, recs, EVALS)
     summarize(run, recs, "c06")
